@@ -177,6 +177,16 @@ func (c *Ctx) path(v ssa.Value, env Env, d int) string {
 		}
 		return c.path(x.X, env, d) + "[" + lo + ":" + hi + "]"
 	case *ssa.BinOp:
+		if x.Op == token.EQL || x.Op == token.NEQ {
+			// constant folding for comparisons of two string literals (environment specialisation)
+			l, r := c.path(x.X, env, d+1), c.path(x.Y, env, d+1)
+			if len(l) >= 2 && len(r) >= 2 && l[0] == '"' && r[0] == '"' {
+				if (l == r) == (x.Op == token.EQL) {
+					return "true"
+				}
+				return "false"
+			}
+		}
 		if isInduction(x.X) || isInduction(x.Y) {
 			if x.Op == token.ADD || x.Op == token.SUB {
 				return "ι"
@@ -819,4 +829,42 @@ func resolveFreeVarAlloc(fv *ssa.FreeVar) ssa.Value {
 		v = bound
 	}
 	return v
+}
+
+// varargPaths: the element paths of a variadic argument built as `new [n]T` + stores + slice.
+func (c *Ctx) varargPaths(v ssa.Value, env Env) []string {
+	sl, ok := v.(*ssa.Slice)
+	if !ok {
+		return nil
+	}
+	al, ok := sl.X.(*ssa.Alloc)
+	if !ok {
+		return nil
+	}
+	type kv struct {
+		i int64
+		p string
+	}
+	var kvs []kv
+	for _, r := range *al.Referrers() {
+		ia, isIA := r.(*ssa.IndexAddr)
+		if !isIA {
+			continue
+		}
+		k, isK := ia.Index.(*ssa.Const)
+		if !isK {
+			continue
+		}
+		for _, rr := range *ia.Referrers() {
+			if st, isS := rr.(*ssa.Store); isS {
+				kvs = append(kvs, kv{k.Int64(), c.Path(st.Val, env)})
+			}
+		}
+	}
+	sort.Slice(kvs, func(i, j int) bool { return kvs[i].i < kvs[j].i })
+	var out []string
+	for _, e := range kvs {
+		out = append(out, e.p)
+	}
+	return out
 }
